@@ -112,23 +112,27 @@ pub fn scheme<S: Sch + ProofMut>(rec: &mut Rec) {
     };
     let labels = slice_b_labels::<S>(&cfg, rec.seed);
     // (poly indices, label indices): k point labels x m polynomials per label
-    let mut cfgs: Vec<(Vec<usize>, Vec<usize>)> = vec![(vec![0, 1], vec![0, 2]), (vec![0, 1], vec![0, 1]), (vec![0, 1, 2], vec![0, 2])];
+    // the last flag: hand the verifier only the commitments the query set refers to (more point labels
+    // than commitments), instead of the whole committed set
+    let mut cfgs: Vec<(Vec<usize>, Vec<usize>, bool)> = vec![(vec![0, 1], vec![0, 2], false), (vec![0, 1], vec![0, 1], false), (vec![0, 1, 2], vec![0, 2], false), (vec![0], vec![0, 1, 2], true), (vec![1], vec![0, 2], true)];
     if rec.thorough() {
-        cfgs.push((vec![0, 1, 2], vec![0, 1, 2]));
-        cfgs.push((vec![0, 2], vec![1, 2]));
+        cfgs.push((vec![0, 1, 2], vec![0, 1, 2], false));
+        cfgs.push((vec![0, 2], vec![1, 2], false));
+        cfgs.push((vec![0, 1], vec![0, 1, 2], true));
     }
-    let comms: Vec<&LCm<S>> = c.comms.iter().collect();
+    let all_comms: Vec<&LCm<S>> = c.comms.iter().collect();
     let r1 = rho::<S::F>(rec.seed, 1);
     let seeds3 = [0usize, 1, 2];
     let seeds1 = [0usize];
-    for (pi, li) in cfgs {
+    for (pi, li, minimal) in cfgs {
+        let comms: Vec<&LCm<S>> = if minimal { pi.iter().map(|i| &c.comms[*i]).collect() } else { all_comms.clone() };
         let mut qs = QuerySet::<S::Pt>::new();
         for p in pi.iter() {
             for l in li.iter() {
                 qs.insert((c.polys[*p].label().clone(), (labels[*l].0.clone(), labels[*l].1.clone())));
             }
         }
-        let tid = format!("{}/C05/{}/polys={:?}/labels={:?}", S::NAME, cfg.id(), pi, li).replace(' ', "");
+        let tid = format!("{}/C05/{}/polys={:?}/labels={:?}{}", S::NAME, cfg.id(), pi, li, if minimal { "/only-needed-commitments" } else { "" }).replace(' ', "");
         // the batch is opened by every worker (cheap); sub-families are sharded below
         let b = match open_batch::<S>(&keys, &c, &[0, 1, 2], &qs, 0, rec.seed, 0) {
             Ok(b) => b,
@@ -303,32 +307,45 @@ pub fn challenge_aware<S: Sch>(rec: &mut Rec, squeezes_per_poly: usize, leading_
             continue;
         }
         rec.dim("scheme", S::NAME);
-        let polys = vec![lp::<S>("q0", dense[dense.len() - 1].clone(), None, hid), lp::<S>("q1", dense[dense.len() - 2].clone(), None, hid)];
-        let c = match commit_set::<S>(&keys, polys, rec.seed, 0) {
-            Ok(c) => c,
-            Err(_) => continue,
-        };
-        let mut qs = QuerySet::<S::Pt>::new();
-        qs.insert(("q0".into(), (labels[0].0.clone(), labels[0].1.clone())));
-        qs.insert(("q1".into(), (labels[2].0.clone(), labels[2].1.clone())));
-        let b = match open_batch::<S>(&keys, &c, &[0, 1], &qs, 0, rec.seed, 0) {
-            Ok(b) => b,
-            Err(_) => continue,
-        };
-        // replay the challenge schedule on a fresh sponge: group "a" (q0) first, then group "c" (q1)
-        let mut sp = sponge_pre::<S::F>(0);
-        let xi_a: S::F = challenge(&mut sp);
-        for _ in 1..squeezes_per_poly {
-            let _: S::F = challenge(&mut sp);
-        }
-        let xi_c: S::F = challenge(&mut sp);
         let _ = leading_squeeze;
-        let list: Vec<Pf<S>> = b.proof.clone().into();
-        let comms: Vec<&LCm<S>> = c.comms.iter().collect();
-        let mut ev = b.evals.clone();
-        *ev.get_mut(&("q0".to_string(), labels[0].1.clone())).unwrap() += xi_c;
-        *ev.get_mut(&("q1".to_string(), labels[2].1.clone())).unwrap() -= xi_a;
-        compare::<S>(rec, &id, "challenge-aware-cancelling", &keys, &comms, &qs, &ev, &list, "delta(q0@a) = xi_c, delta(q1@c) = -xi_a", &[0, 1, 2]);
+        // one polynomial per point label: two labels (a, c) and three labels (a, b, c; a and b share a value)
+        for groups in [vec![0usize, 2], vec![0, 1, 2]] {
+            let polys: Vec<LP<S>> = (0..groups.len()).map(|k| lp::<S>(&format!("q{}", k), dense[dense.len() - 1 - (k % dense.len())].clone(), None, hid)).collect();
+            let c = match commit_set::<S>(&keys, polys, rec.seed, 0) {
+                Ok(c) => c,
+                Err(_) => continue,
+            };
+            let mut qs = QuerySet::<S::Pt>::new();
+            for (k, g) in groups.iter().enumerate() {
+                qs.insert((format!("q{}", k), (labels[*g].0.clone(), labels[*g].1.clone())));
+            }
+            let sel: Vec<usize> = (0..groups.len()).collect();
+            let b = match open_batch::<S>(&keys, &c, &sel, &qs, 0, rec.seed, 0) {
+                Ok(b) => b,
+                Err(_) => continue,
+            };
+            // replay the challenge schedule on a fresh sponge: the groups come in point-label order
+            let mut sp = sponge_pre::<S::F>(0);
+            let mut xi: Vec<S::F> = Vec::new();
+            for _ in 0..groups.len() {
+                xi.push(challenge(&mut sp));
+                for _ in 1..squeezes_per_poly {
+                    let _: S::F = challenge(&mut sp);
+                }
+            }
+            let list: Vec<Pf<S>> = b.proof.clone().into();
+            let comms: Vec<&LCm<S>> = c.comms.iter().collect();
+            // every pair of positions (i, j): delta_i = xi_j, delta_j = -xi_i, so that the challenge-weighted errors cancel
+            for i in 0..groups.len() {
+                for j in (i + 1)..groups.len() {
+                    let mut ev = b.evals.clone();
+                    *ev.get_mut(&(format!("q{}", i), labels[groups[i]].1.clone())).unwrap() += xi[j];
+                    *ev.get_mut(&(format!("q{}", j), labels[groups[j]].1.clone())).unwrap() -= xi[i];
+                    rec.count_points(1);
+                    compare::<S>(rec, &id, "challenge-aware-cancelling", &keys, &comms, &qs, &ev, &list, &format!("{} labels: delta(q{}) = xi_{}, delta(q{}) = -xi_{}", groups.len(), i, j, j, i), &[0, 1, 2]);
+                }
+            }
+        }
     }
 }
 
